@@ -32,6 +32,27 @@ let () =
            for a' = 0 to vt.rows - 1 do for b' = 0 to vt.cols - 1 do
              worst := Float.max !worst (Float.abs (pred vo a' b' -. vt.d.(a' * vt.cols + b'))) done done;
            if not (!worst <= tol *. sc) then (incr nbad; Printf.printf "BAD %s block deviates from its predicted transform by %.3e (scale %.3e)\n" id !worst sc)
+         end else if ncomp = 45 then begin
+           (* second-derivative blocks: AA (6, packed xx xy xz yy yz zz), AB (9), AC (9), BB (6), BC (9), CC (6);
+              each group transforms as a rank-2 Cartesian tensor in its two component indices *)
+           let rr p q = m.(3 * p + q) in
+           let symix = [| [| 0; 1; 2 |]; [| 1; 3; 4 |]; [| 2; 4; 5 |] |] in
+           List.iter (fun (name, off, sym) ->
+               let ix p q = off + (if sym then symix.(p).(q) else 3 * p + q) in
+               let vo p q = getm o (Printf.sprintf "%s%d" key (ix p q)) and vt p q = getm t (Printf.sprintf "%s%d" key (ix p q)) in
+               let sc = ref 1e-300 in
+               for p = 0 to 2 do for q = 0 to 2 do Array.iter (fun x -> sc := Float.max !sc (Float.abs x)) (vt p q).d done done;
+               if !sc > 1e-12 then incr nnz;
+               for p = 0 to 2 do for q = (if sym then p else 0) to 2 do
+                 let tp = vt p q in
+                 let worst = ref 0.0 in
+                 for a' = 0 to tp.rows - 1 do for b' = 0 to tp.cols - 1 do
+                   let pr = ref 0.0 in
+                   for r = 0 to 2 do for s_ = 0 to 2 do pr := !pr +. rr p r *. rr q s_ *. pred (vo r s_) a' b' done done;
+                   worst := Float.max !worst (Float.abs (!pr -. tp.d.(a' * tp.cols + b'))) done done;
+                 if not (!worst <= tol *. !sc) then (incr nbad; Printf.printf "BAD %s second-derivative group %s component (%d,%d) deviates by %.3e (scale %.3e)\n" id name p q !worst !sc)
+               done done)
+             [("AA", 0, true); ("AB", 6, false); ("AC", 15, false); ("BB", 24, true); ("BC", 30, false); ("CC", 39, true)]
          end else begin
            (* derivative blocks: component index 3*centre + q transforms as a vector in q *)
            let rr p q = m.(3 * p + q) in
